@@ -940,6 +940,49 @@ class Interp(seq_detached.DetachedMixin, S.SeqRun):
         if self.expect(what, gm, exp[0] if exp else None) and got is not None and self.handles.get(gm) is not got:
             self.viol('C11', 'lookup-returned-other-object', e.name, what)
 
+    def op_r_getrel(self, a, b, c):
+        """lookups by a reference: Entity.get(ref=obj) / exists(ref=obj) / select(ref=obj), also with an object
+        created in this session that has no primary key yet"""
+        order = self.ent_order()
+        e = self.schema.by_name[order[a % len(order)]]
+        P = self.E[e.name]
+        ras = [ra for ra in e.to_ones() if getattr(P, ra.name).columns]
+        if not ras:
+            return
+        ra = ras[b % len(ras)]
+        tgts = self.live_sorted(ra.rel)
+        if not tgts:
+            return
+        new = [o for o in tgts if not o.stored]
+        tgt = new[(c >> 3) % len(new)] if (new and c % 2) else tgts[(c >> 3) % len(tgts)]
+        th = self.handle_or_poison(tgt.mid)
+        exp = sorted(o.mid for o in self.view.live(e.name) if self.view.get_one(ra, o.mid) == tgt.mid)
+        form = (c >> 1) % 3
+        what = 'r_getrel %s.%s(%s=%s#%d%s)' % (e.name, ('get', 'exists', 'select')[form], ra.name, tgt.ent, tgt.mid,
+                                              '' if tgt.stored else ' unsaved')
+        if not tgt.stored:
+            self.probe('lookup_by_unsaved_reference')
+        if form == 0:
+            ok, got = self.read(what, lambda: P.get(**{ra.name: th}), exp_exc=core.MultipleObjectsFoundError)
+            if not ok:
+                if len(exp) <= 1:
+                    self.viol('C10', 'spurious-multiple-objects', e.name,
+                              '%s raised MultipleObjectsFoundError, view has %r' % (what, exp))
+                return
+            if len(exp) > 1:
+                self.viol('C10', 'get-missed-multiple-objects', e.name, '%s returned %r although the view holds %r' % (what, got, exp))
+                return
+            gm = self.mid_of(got) if got is not None else None
+            self.expect(what, gm, exp[0] if exp else None)
+        elif form == 1:
+            ok, got = self.read(what, lambda: P.exists(**{ra.name: th}))
+            if ok:
+                self.expect(what, got, bool(exp))
+        else:
+            ok, got = self.read(what, lambda: self.mids(P.select(**{ra.name: th})[:]))
+            if ok:
+                self.expect(what, got, exp)
+
     def op_r_select(self, a, b, c, count=False):
         order = self.ent_order()
         e = self.schema.by_name[order[a % len(order)]]
@@ -1421,6 +1464,8 @@ class Interp(seq_detached.DetachedMixin, S.SeqRun):
             self.op_r_get(a, b, c)
         elif name == 'r_exists':
             self.op_r_get(a, b, c, exists=True)
+        elif name == 'r_getrel':
+            self.op_r_getrel(a, b, c)
         elif name == 'r_select':
             self.op_r_select(a, b, c)
         elif name == 'r_count':
